@@ -23,3 +23,48 @@ Fixpoint since_last_fit (ops : list swop) (acc : list nat) : list nat :=
   | SFit b :: t => since_last_fit t b
   | SPartial b :: t => since_last_fit t (acc ++ b)
   end.
+
+(* ---- the window with everything a caller can vary between two calls (round I) ----
+   A sample is (id, labeled?).  Every call carries the CURRENT parameters (window_size and
+   only_labeled may have been changed through set_params since the last call) and says whether
+   sample weights were passed.  The weights window holds the ids of the samples whose weights it
+   stores (None = sample_weight_train_ is None).
+
+   swx_step models the code after the repair (the window is cut to the current window_size by
+   every call); swa_step models the code AS IT WAS WRITTEN (the deques keep the maxlen they were
+   created with until the next fit). *)
+Record xcall := { xfit : bool; xw : nat; xol : bool; xs : list (nat * bool); xwt : bool }.
+
+Definition keepl (ol : bool) (l : list (nat * bool)) : list (nat * bool) :=
+  if ol then filter (fun p => snd p) l else l.
+
+Record xwin := { xwindow : list (nat * bool); xweights : option (list nat) }.
+
+Definition xempty : xwin := {| xwindow := []; xweights := Some [] |}.
+
+(* None = the call raises (weights passed although the weights window is None: AttributeError) *)
+Definition swx_step (s : xwin) (c : xcall) : option xwin :=
+  let new := keepl (xol c) (xs c) in
+  let base := if xfit c then xempty else s in
+  match xweights base, xwt c with
+  | None, true => None
+  | Some wl, true => Some {| xwindow := lastn (xw c) (xwindow base ++ new);
+                             xweights := Some (lastn (xw c) (wl ++ map fst new)) |}
+  | _, false => Some {| xwindow := lastn (xw c) (xwindow base ++ new); xweights := None |}
+  end.
+
+Fixpoint swx_run (s : xwin) (cs : list xcall) : option xwin :=
+  match cs with
+  | [] => Some s
+  | c :: t => match swx_step s c with Some s' => swx_run s' t | None => None end
+  end.
+
+(* the old step on (is_fit, batch) pairs *)
+Definition sw_step_gen {A} (w : nat) (win : list A) (o : bool * list A) : list A :=
+  if fst o then lastn w (snd o) else lastn w (win ++ snd o).
+
+(* as written before the repair: state = window + the maxlen of the deques *)
+Definition swa_step (st : list (nat * bool) * nat) (c : xcall) : list (nat * bool) * nat :=
+  let new := keepl (xol c) (xs c) in
+  if xfit c then (lastn (xw c) new, xw c)
+  else (lastn (snd st) (fst st ++ new), snd st).
